@@ -108,6 +108,14 @@ func Load(repo string, overlay map[string][]byte, withTests bool, tags string) (
 		if strings.HasSuffix(p.Fset.Position(f.Pos()).Filename, "_test.go") {
 			return
 		}
+		if f.Parent() == nil && len(SplicedHelpers) > 0 {
+			if fd, ok := f.Syntax().(*ast.FuncDecl); ok {
+				rel, _ := filepath.Rel(p.Repo, filepath.Dir(p.Fset.Position(f.Pos()).Filename))
+				if SplicedHelpers[funcDeclKey(rel, fd)] {
+					return // its body was spliced into every call site (normalize.go); the copy there is what is analysed
+				}
+			}
+		}
 		p.RepoFns = append(p.RepoFns, f)
 		p.fnByKey[fnKey(f)] = f
 		for _, a := range f.AnonFuncs {
